@@ -218,3 +218,57 @@ func VerifC34InetAtonValue() {
 	want := uint32(b[0])<<24 | uint32(b[1])<<16 | uint32(b[2])<<8 | uint32(b[3])
 	nd.Assert("c34.inet-aton.value", nd.And(ok, v == want))
 }
+
+// CONV is its own inverse between base 10 and any base b: CONV(CONV(n,10,b),b,10) = n
+// for a decimal numeral n without sign or leading zero, and CONV(n,10,b) is the
+// canonical base-b numeral of n (digits 0-9A-Z, checked by positional evaluation).
+// (Added after the seeded change /verif/seeded/C34-conv-base36 — the source-base
+// bound "> 36" turned into ">= 36" — was missed: CONV was outside the first check.)
+func VerifC34ConvRoundTrip() {
+	bases := [...]int64{2, 3, 8, 10, 16, 35, 36}
+	var b int64
+	if nd.Tier() == 0 {
+		b = bases[nd.Pick("c34conv.b", len(bases))]
+	} else {
+		b = int64(nd.IntRange("c34conv.b", 2, 36))
+	}
+	l := nd.IntRange("c34conv.len", 1, nd.Bound(2, 3))
+	n := nd.String("c34conv.n", l)
+	var val uint64
+	for i := 0; i < l; i++ {
+		nd.Assume(n[i] >= '0' && n[i] <= '9')
+		val = val*10 + uint64(n[i]-'0')
+	}
+	nd.Assume(l == 1 || n[0] != '0')
+	lit := func(v int64) sql.Expression { return expression.NewLiteral(v, types.Int64) }
+	there, err := NewConv(nil, c34SF(0), lit(10), lit(b)).Eval(nil, sql.Row{n})
+	nd.Reach("c34.conv")
+	nd.Assert("c34.conv.to-base.no-error", err == nil)
+	ts, ok := there.(string)
+	nd.Assert("c34.conv.to-base.is-text", ok)
+	if !ok {
+		return
+	}
+	// positional value of the numeral
+	var pos uint64
+	digitsOK := len(ts) > 0
+	for i := 0; i < len(ts); i++ {
+		c := ts[i]
+		var dv uint64
+		isNum := c >= '0' && c <= '9'
+		isUp := c >= 'A' && c <= 'Z'
+		if isNum {
+			dv = uint64(c - '0')
+		} else {
+			dv = uint64(c-'A') + 10
+		}
+		digitsOK = nd.And(digitsOK, nd.And(nd.Or(isNum, isUp), dv < uint64(b)))
+		pos = pos*uint64(b) + dv
+	}
+	nd.Assert("c34.conv.to-base.numeral-denotes-n", nd.And(digitsOK, pos == val))
+	back, err := NewConv(nil, c34SF(0), lit(b), lit(10)).Eval(nil, sql.Row{ts})
+	nd.Assert("c34.conv.back.no-error", err == nil)
+	bs, ok := back.(string)
+	nd.Observe(n, ts, bs, ok)
+	nd.Assert("c34.conv.round-trip", nd.And(ok, bs == n))
+}
